@@ -21,6 +21,26 @@ use std::time::Duration;
 
 const MAX_HANDLES: usize = 3;
 const MAX_FUTS: usize = 2;
+/// "wide" random sequences: up to 48 live futures of each side and 6 handles per side (many waiters in the wait
+/// list at once, the ring wrapping around), with a bias towards creating futures
+static WIDE: std::sync::atomic::AtomicBool = std::sync::atomic::AtomicBool::new(false);
+fn wide() -> bool {
+    WIDE.load(std::sync::atomic::Ordering::Relaxed)
+}
+fn max_futs() -> usize {
+    if wide() {
+        48
+    } else {
+        MAX_FUTS
+    }
+}
+fn max_handles() -> usize {
+    if wide() {
+        6
+    } else {
+        MAX_HANDLES
+    }
+}
 
 #[derive(Clone, Copy, Debug, PartialEq, Eq, Hash)]
 enum Call {
@@ -255,10 +275,10 @@ impl<T: Payload> World<T> {
                     c.push(Call::Burst(i, k));
                 }
             }
-            if Self::count_live(&self.sfuts) < MAX_FUTS {
+            if Self::count_live(&self.sfuts) < max_futs() {
                 c.push(Call::SFutNew(i));
             }
-            if ns < MAX_HANDLES {
+            if ns < max_handles() {
                 c.push(Call::CloneS(i, false));
                 c.push(Call::CloneS(i, true));
             }
@@ -291,13 +311,13 @@ impl<T: Payload> World<T> {
             for k in 0..3 {
                 c.push(Call::Drain(i, k));
             }
-            if Self::count_live(&self.rfuts) < MAX_FUTS {
+            if Self::count_live(&self.rfuts) < max_futs() {
                 c.push(Call::RFutNew(i));
             }
             if Self::count_live(&self.streams) < 1 {
                 c.push(Call::StreamNew(i));
             }
-            if nr < MAX_HANDLES {
+            if nr < max_handles() {
                 c.push(Call::CloneR(i, false));
                 c.push(Call::CloneR(i, true));
             }
@@ -1142,6 +1162,8 @@ struct Outcome {
     radix: Vec<usize>,
     err: Option<(String, Vec<String>)>,
     resolved: Vec<usize>,
+    /// most operations waiting in the reference channel's list at once
+    max_waiters: usize,
 }
 
 /// Runs one sequence given by choice indices (`choices[k]` indexes the enabled
@@ -1156,10 +1178,40 @@ fn run_seq_m<T: Payload>(cap: Option<usize>, actor: bool, choices: &[usize], st:
     let mut radix = Vec::with_capacity(choices.len());
     let mut err = None;
     let mut resolved = Vec::with_capacity(choices.len());
+    let mut max_waiters = 0usize;
     for (k, &ch) in choices.iter().enumerate() {
         let en = w.enabled();
         radix.push(en.len());
-        let ch = if modulo && !en.is_empty() { ch % en.len() } else { ch };
+        let ch = if modulo && !en.is_empty() {
+            // wide sequences: a third of the steps create a future, a third poll one that was never polled (it
+            // registers), and for the first two thirds of the sequence nothing closes or drops handles
+            let pref: Vec<usize> = match (wide(), (ch >> 10) % 3) {
+                (true, 0) => en.iter().enumerate().filter(|(_, c)| matches!(c, Call::SFutNew(_) | Call::RFutNew(_))).map(|(i, _)| i).collect(),
+                (true, 1) => en
+                    .iter()
+                    .enumerate()
+                    .filter(|(_, c)| match c {
+                        Call::SFutPoll(f, _) => w.sfuts[*f].as_ref().map_or(false, |x| matches!(x.st, MF::Zero)),
+                        Call::RFutPoll(f, _) => w.rfuts[*f].as_ref().map_or(false, |x| matches!(x.st, MF::Zero)),
+                        _ => false,
+                    })
+                    .map(|(i, _)| i)
+                    .collect(),
+                _ => vec![],
+            };
+            let mut idx = if pref.is_empty() { ch % en.len() } else { pref[ch % pref.len()] };
+            if wide() && k < choices.len() * 2 / 3 {
+                for t in 0..6 {
+                    if !matches!(en[idx], Call::CloseS(_) | Call::CloseR(_) | Call::DropS(_) | Call::DropR(_)) {
+                        break;
+                    }
+                    idx = (idx + 1 + (ch >> (3 + t)) % 7) % en.len();
+                }
+            }
+            idx
+        } else {
+            ch
+        };
         if ch >= en.len() {
             break;
         }
@@ -1180,6 +1232,7 @@ fn run_seq_m<T: Payload>(cap: Option<usize>, actor: bool, choices: &[usize], st:
             err = Some(e);
             break;
         }
+        max_waiters = max_waiters.max(w.m.ws.len() + w.m.wr.len());
     }
     if err.is_none() {
         if let Err(e) = w.finish() {
@@ -1200,7 +1253,7 @@ fn run_seq_m<T: Payload>(cap: Option<usize>, actor: bool, choices: &[usize], st:
         // the world may be inconsistent: leak it rather than run more real code
         std::mem::forget(w);
     }
-    Outcome { radix, err: err.map(|e| (e, tr)), resolved }
+    Outcome { radix, err: err.map(|e| (e, tr)), resolved, max_waiters }
 }
 
 /// progress beacon: bumped before every call of every sequence; a watchdog thread turns a call that does not
@@ -1242,7 +1295,7 @@ fn report(class: &str, cap: Option<usize>, actor: bool, choices: &[usize], e: &(
         ("choices".into(), J::s(choices_str(choices))),
         ("calls".into(), J::A(e.1.iter().map(|s| J::s(s.clone())).collect())),
         ("what".into(), J::s(e.0.clone())),
-        ("replay".into(), J::s(format!("seqdiff --replay --class {} --cap {} --actor {} --choices {}", class, cap_name(cap), actor as u8, choices_str(choices)))),
+        ("replay".into(), J::s(format!("seqdiff --replay --class {} --cap {} --actor {} --choices {}{}", class, cap_name(cap), actor as u8, choices_str(choices), if wide() { " --wide 1" } else { "" }))),
     ]);
     if let J::O(m) = out {
         for (k, x) in m.iter_mut() {
@@ -1778,6 +1831,7 @@ fn main() {
         let actor = kverif::arg_u64(&a, "actor", 0) == 1;
         let choices: Vec<usize> = kverif::arg_str(&a, "choices", "").split(',').filter(|s| !s.is_empty()).map(|s| s.parse().unwrap()).collect();
         let modulo = a.contains_key("modulo");
+        WIDE.store(a.contains_key("wide"), std::sync::atomic::Ordering::Relaxed);
         fn go<T: Payload>(cap: Option<usize>, actor: bool, ch: &[usize], st: &mut Stats, m: bool) -> Outcome {
             run_seq_m::<T>(cap, actor, ch, st, true, m)
         }
@@ -1868,6 +1922,8 @@ fn main() {
     let mut rng = Rng::new(seed ^ shard.wrapping_mul(0x1000_0001));
     let mut random_seqs = 0u64;
     let mut big_seqs = 0u64;
+    let mut wide_seqs = 0u64;
+    let mut max_wait = 0usize;
     for n in 0..nrandom {
         if nviol >= stop_after {
             break;
@@ -1878,12 +1934,14 @@ fn main() {
         // very large capacities: the buffer is allocated up front, so the size is limited per payload class inside go()
         let cap = if bigcaps && rng.chance(1, 12) { Some(((1usize << (8 + rng.below(54))) as i128 + *rng.pick(&[-1i128, 0, 1, 5])) as usize) } else { cap };
         let actor = rng.chance(1, 2);
-        let len = 10 + rng.below((maxlen.max(11) - 10) as u64) as usize;
+        let is_wide = bigcaps && rng.chance(1, 8);
+        WIDE.store(is_wide, std::sync::atomic::Ordering::Relaxed);
+        let len = if is_wide { 60 + rng.below(240) as usize } else { 10 + rng.below((maxlen.max(11) - 10) as u64) as usize };
         // choices are drawn large and reduced modulo the radix at replay time: pre-run to fix them
         let raw: Vec<usize> = (0..len).map(|_| rng.below(1 << 20) as usize).collect();
         fn go<T: Payload>(cap: Option<usize>, actor: bool, raw: &[usize], st: &mut Stats, casefile: &Option<String>, keep: bool) -> (Outcome, Vec<usize>, Option<usize>) {
             let cap = clamp_cap::<T>(cap);
-            write_case(casefile, &format!("rnd class={} cap={} actor={} modulo=1 choices={}", T::NAME, cap_name(cap), actor as u8, choices_str(raw)));
+            write_case(casefile, &format!("rnd class={} cap={} actor={} modulo=1{} choices={}", T::NAME, cap_name(cap), actor as u8, if wide() { " wide=1" } else { "" }, choices_str(raw)));
             let o = run_seq_m::<T>(cap, actor, raw, st, keep, true);
             let ch = o.resolved.clone();
             (o, ch, cap)
@@ -1891,6 +1949,10 @@ fn main() {
         let (o, ch, cap) = with_class!(class, go(cap, actor, &raw, &mut st, &casefile, n % 499 == 3));
         if cap.map_or(false, |c| c > 4096) {
             big_seqs += 1;
+        }
+        if is_wide {
+            wide_seqs += 1;
+            max_wait = max_wait.max(o.max_waiters);
         }
         random_seqs += 1;
         if let Some(e) = &o.err {
@@ -1965,6 +2027,9 @@ fn main() {
     out.set("bigfill_channels", J::U(fill_stats.0));
     out.set("bigfill_sends", J::U(fill_stats.1));
     out.set("bigcap_sequences", J::U(big_seqs));
+    out.set("wide_sequences", J::U(wide_seqs));
+    out.set("wide_max_waiters", J::U(max_wait as u64));
+    WIDE.store(false, std::sync::atomic::Ordering::Relaxed);
 
     let hits = kverif::fp::hits_delta(&hits0);
     out.set("engine", J::s("seqdiff"));
